@@ -347,4 +347,117 @@ example : ∃ out, computeFdr ([4/100, 1/100] : List ℝ) = .ok out ∧ out[0]? 
   rw [h2 0 (4/100) rfl]
   norm_num [List.countP_cons]
 
+/-! ## element-wise operators -/
+
+/-- the binary operators answer the element-wise results for equal lengths -/
+theorem elementwise_spec (v1 v2 : List ℝ) (h : v1.length = v2.length) :
+    add v1 v2 = .ok (List.zipWith (· + ·) v1 v2) ∧ sub v1 v2 = .ok (List.zipWith (· - ·) v1 v2) ∧
+    mul v1 v2 = .ok (List.zipWith (· * ·) v1 v2) ∧ div v1 v2 = .ok (List.zipWith (· / ·) v1 v2) := by
+  simp [add, sub, mul, div, zipOp, h]
+
+/-- witness: before the repair the compound operators `v1 op= v2` read `v2` out of range when it
+is shorter than `v1` … -/
+theorem zipAssignOrig_shorter_ub (f : ℝ → ℝ → ℝ) (x : ℝ) (xs : List ℝ) :
+    zipAssignOrig f (x :: xs) [] = .error .ub := rfl
+
+/-- … and silently ignored the tail of a longer `v2` -/
+theorem zipAssignOrig_longer_truncates (f : ℝ → ℝ → ℝ) (y : ℝ) (ys : List ℝ) :
+    zipAssignOrig f [] (y :: ys) = .ok [] := rfl
+
+/-! ## size mismatches and empty inputs -/
+
+/-- every two-vector routine reports a size mismatch by DimensionException -/
+theorem mismatch_raises (v1 v2 : List ℝ) (h : v1.length ≠ v2.length) :
+    add v1 v2 = .error .dimension ∧ sub v1 v2 = .error .dimension ∧ mul v1 v2 = .error .dimension ∧
+    div v1 v2 = .error .dimension ∧ (∀ f, zipAssign f v1 v2 = .error .dimension) ∧
+    sumProd v1 v2 = .error .dimension ∧ scalar v1 v2 = .error .dimension ∧ normW v1 v2 = .error .dimension ∧
+    VecTools.cos v1 v2 = .error .dimension ∧ (∀ nw, meanW v1 v2 nw = .error .dimension) ∧
+    (∀ nw, centerW v1 v2 nw = .error .dimension) ∧ (∀ u, cov v1 v2 u = .error .dimension) ∧
+    cor v1 v2 = .error .dimension := by
+  refine ⟨zipOp_mismatch _ _ _ h, zipOp_mismatch _ _ _ h, zipOp_mismatch _ _ _ h, zipOp_mismatch _ _ _ h,
+    fun f => zipOp_mismatch f _ _ h, by simp [sumProd, h], scalar_mismatch _ _ h, by simp [normW, h], ?_,
+    fun nw => meanW_mismatch _ _ nw h, fun nw => centerW_mismatch _ _ nw h, fun u => cov_mismatch _ _ u h, ?_⟩
+  · unfold VecTools.cos; rw [scalar_mismatch _ _ h]; rfl
+  · unfold cor; rw [cov_mismatch _ _ _ h]; rfl
+
+/-- the weighted routines raise when either sample does not match the weights -/
+theorem mismatch_raises_weighted (v1 v2 w : List ℝ) (h : v1.length ≠ w.length ∨ v2.length ≠ w.length) :
+    scalarW v1 v2 w = .error .dimension ∧ (∀ u nw, covW v1 v2 w u nw = .error .dimension) ∧
+    (∀ nw, corW v1 v2 w nw = .error .dimension) := by
+  have hcov : ∀ (w' : List ℝ), w'.length = w.length → ∀ u, covW v1 v2 w' u false = .error .dimension := by
+    intro w' hw' u
+    unfold covW
+    simp only [Bool.false_eq_true, if_false]
+    by_cases h1 : v1.length = w'.length
+    · have h2 : v2.length ≠ w'.length := by
+        rcases h with h | h
+        · exact absurd (h1.trans hw') h
+        · rw [hw']; exact h
+      obtain ⟨c, hc, -⟩ := centerW_ok v1 w' false h1
+      rw [hc, centerW_mismatch v2 w' false h2]; rfl
+    · rw [centerW_mismatch v1 w' false h1]; rfl
+  refine ⟨?_, ?_, ?_⟩
+  · unfold scalarW
+    rcases h with h | h
+    · simp [h]
+    · by_cases h1 : v1.length = w.length <;> simp [h1, h]
+  · intro u nw
+    cases nw with
+    | false => exact hcov w rfl u
+    | true =>
+      have := hcov (divC w (VecTools.sum w)) (by simp [divC]) u
+      unfold covW at this ⊢
+      simpa using this
+  · intro nw
+    unfold corW
+    cases nw with
+    | false => simp only [Bool.false_eq_true, if_false]; rw [hcov w rfl false]; rfl
+    | true => simp only [if_true]; rw [hcov (divC w (VecTools.sum w)) (by simp [divC]) false]; rfl
+
+/-- the routines documented to throw on an empty vector do so -/
+theorem empty_raises :
+    VecTools.max ([] : List ℝ) = .error .empty ∧ VecTools.min ([] : List ℝ) = .error .empty ∧
+    whichMax ([] : List ℝ) = .error .empty ∧ whichMin ([] : List ℝ) = .error .empty ∧
+    whichMaxAll ([] : List ℝ) = .error .empty ∧ whichMinAll ([] : List ℝ) = .error .empty ∧
+    VecTools.range ([] : List ℝ) = .error .empty ∧ order ([] : List ℝ) = .error .empty := by
+  refine ⟨rfl, rfl, rfl, rfl, rfl, rfl, rfl, rfl⟩
+
+/-- no routine of the (repaired) model reads out of range, whatever the sizes: empty vectors,
+single elements and mismatched lengths included -/
+theorem empty_no_ub (v1 v2 w : List ℝ) (u nw : Bool) (f : ℝ → ℝ → ℝ) (x : ℝ) :
+    NoUb (zipOp f v1 v2) ∧ NoUb (zipAssign f v1 v2) ∧ NoUb (sumProd v1 v2) ∧ NoUb (scalar v1 v2) ∧
+    NoUb (scalarW v1 v2 w) ∧ NoUb (normW v1 w) ∧ NoUb (VecTools.cos v1 v2) ∧
+    NoUb (VecTools.max v1) ∧ NoUb (VecTools.min v1) ∧ NoUb (whichMax v1) ∧ NoUb (whichMin v1) ∧
+    NoUb (whichMaxAll v1) ∧ NoUb (whichMinAll v1) ∧ NoUb (VecTools.range v1) ∧ NoUb (order v1) ∧
+    NoUb (median v1) ∧ NoUb (meanW v1 w nw) ∧ NoUb (centerW v1 w nw) ∧ NoUb (cov v1 v2 u) ∧
+    NoUb (var v1 u) ∧ NoUb (sd v1 u) ∧ NoUb (cor v1 v2) ∧ NoUb (covW v1 v2 w u nw) ∧
+    NoUb (varW v1 w u nw) ∧ NoUb (sdW v1 w u nw) ∧ NoUb (corW v1 v2 w nw) ∧
+    NoUb (which Scalar.eqb v1 x) ∧ NoUb (computeFdr v1) :=
+  ⟨zipOp_noUb _ _ _, zipOp_noUb _ _ _, sumProd_noUb _ _, scalar_noUb _ _, scalarW_noUb _ _ _, normW_noUb _ _,
+   cos_noUb _ _, extremum_noUb _ _, extremum_noUb _ _, whichExtremum_noUb _ _, whichExtremum_noUb _ _,
+   (whichMaxAll_noUb _).1, (whichMaxAll_noUb _).2, range_noUb _, order_noUb _, median_noUb _, meanW_noUb _ _ _,
+   centerW_noUb _ _ _, cov_noUb _ _ _, cov_noUb _ _ _, sd_noUb _ _, cor_noUb _ _, covW_noUb _ _ _ _ _,
+   covW_noUb _ _ _ _ _, sdW_noUb _ _ _ _, corW_noUb _ _ _ _, which_noUb _ _ _, computeFdr_noUb _⟩
+
+/-! ## seq (repaired) -/
+
+/-- `seq(from, to, by)` with a positive step has `⌊(|from-to| + by/100)/by⌋ + 1` elements, starts
+at `from` and advances by `by` towards `to` -/
+theorem seq_spec (frm tt by_ : ℝ) (hby : 0 < by_) :
+    ∃ l, seq truncR frm tt by_ = .ok l ∧
+      l.length = ⌊(|frm - tt| + by_ / 100) / by_⌋₊ + 1 ∧
+      ∀ i, i < l.length → l[i]? = some (frm + i * (if frm < tt then by_ else -by_)) := seq_spec' frm tt by_ hby
+
+/-- when the end point is a whole number `k` of steps away (upwards or downwards) the sequence
+has `k+1` elements, the first is `from` and the last is the end point -/
+theorem seq_includes_to (frm by_ : ℝ) (k : Nat) (up : Bool) (hby : 0 < by_) :
+    let tt := if up then frm + k * by_ else frm - k * by_
+    ∃ l, seq truncR frm tt by_ = .ok l ∧ l.length = k + 1 ∧ l[0]? = some frm ∧ l[k]? = some tt :=
+  seq_hits_to frm by_ k up hby
+
+/-- witness: before the repair a descending sequence started at the *end* point and walked away
+from the range (`seq(5,1,1) = 1 0 -1 -2 -3`) -/
+theorem seqOrig_descending_wrong (trunc : ℝ → Nat) (frm tt by_ : ℝ) (hby : 0 < by_) (h : tt < frm) :
+    ∃ l, seqOrig trunc frm tt by_ = .ok (tt :: l) := seqOrig_starts_at_to trunc frm tt by_ hby h
+
 end Bpp.C07
